@@ -259,6 +259,7 @@ type exec struct {
 	peerHdrSince   bool // receiver: the peer has sent a header since the pending restart
 	hdrOutSince    bool // initiator: the library wrote a header since the last script call
 	prev           uint8
+	model          uint8  // initial state | masks returned by successful Negotiate calls
 	mustFail       string // receiver: category of a selection that has to be refused
 	listCalls      []*Feat
 	nextAd         int
@@ -300,9 +301,18 @@ func (e *exec) sample(where string) uint8 {
 	if lost := e.prev &^ st; lost != 0 {
 		e.violate(5, "lost-"+stateStr(lost), "state went from %s to %s at %s", stateStr(e.prev), stateStr(st), where)
 	}
+	// The monitor's own model: the initial state OR-ed with every mask a
+	// successful Negotiate callback of this session has returned.  A bit granted
+	// by a completed step must be visible in State() at every later observation.
+	e.c.Count("r5_model_comparisons", 1)
+	if stale := e.model &^ st; stale != 0 {
+		e.violate(5, "stale-state", "State() = %s at %s lacks %s, which an earlier successful Negotiate of this session returned (model %s)", stateStr(st), where, stateStr(stale), stateStr(e.model))
+	}
 	e.c.Count("r5_state_samples", 1)
 	e.prev = st
-	return st
+	// eligibility is judged against what has really been granted so far, not only
+	// against what the library currently reports
+	return st | e.model
 }
 
 func (e *exec) byName(n xml.Name) *Feat {
@@ -338,8 +348,8 @@ func (e *exec) callbackDuringRestart(what string, f *Feat) {
 }
 
 func (e *exec) onList(f *Feat) {
-	st := e.sample("List(" + f.Local + ")")
-	e.logf("cb List(%s) state=%s", f.Local, stateStr(st))
+	e.sample("List(" + f.Local + ")")
+	e.logf("cb List(%s) state=%s", f.Local, stateStr(e.prev))
 	e.seq = append(e.seq, "L"+f.Local)
 	e.c.Count("list_calls", 1)
 	e.callbackDuringRestart("List", f)
@@ -347,8 +357,8 @@ func (e *exec) onList(f *Feat) {
 }
 
 func (e *exec) onParse(f *Feat) {
-	st := e.sample("Parse(" + f.Local + ")")
-	e.logf("cb Parse(%s) state=%s", f.Local, stateStr(st))
+	e.sample("Parse(" + f.Local + ")")
+	e.logf("cb Parse(%s) state=%s", f.Local, stateStr(e.prev))
 	e.seq = append(e.seq, "P"+f.Local)
 	e.c.Count("parse_calls", 1)
 	e.callbackDuringRestart("Parse", f)
@@ -357,7 +367,7 @@ func (e *exec) onParse(f *Feat) {
 func (e *exec) onNegotiate(f *Feat, s *xmpp.Session, data any) (xmpp.SessionState, io.ReadWriter, error) {
 	e.sess = s
 	st := e.sample("Negotiate(" + f.Local + ")")
-	e.logf("cb Negotiate(%s) state=%s data=%v", f.Local, stateStr(st), data)
+	e.logf("cb Negotiate(%s) State()=%s model=%s data=%v", f.Local, stateStr(e.prev), stateStr(e.model), data)
 	e.seq = append(e.seq, "N"+f.Local)
 	e.c.Count("negotiate_calls", 1)
 	e.negCalls++
@@ -472,6 +482,10 @@ func (e *exec) onNegotiate(f *Feat, s *xmpp.Session, data any) (xmpp.SessionStat
 		rw = s.Conn()
 		e.restartPending = true
 		e.peerHdrSince = false
+	}
+	e.model |= mask
+	if mask&bGate&^st != 0 {
+		e.c.Count("r5_masks_adding_gate_bits", 1)
 	}
 	return xmpp.SessionState(mask), rw, nil
 }
@@ -938,6 +952,7 @@ func runOnce(c *core.Case, cfg *Cfg) *exec {
 		e.init |= uint8(xmpp.Received)
 	}
 	e.prev = e.init
+	e.model = e.init
 	script := e.initiatorScript
 	if cfg.Role == "receiver" {
 		script = e.receiverScript
@@ -1026,8 +1041,8 @@ func runOnce(c *core.Case, cfg *Cfg) *exec {
 		if e.restarts > 0 {
 			c.Count("established_after_restart", 1)
 		}
-		if final&bReady == 0 {
-			e.violate(7, "not-ready", "constructor returned nil but the state is %s", stateStr(final))
+		if raw := e.state(); raw&bReady == 0 {
+			e.violate(7, "not-ready", "constructor returned nil but the state is %s", stateStr(raw))
 		}
 		if p := e.pendingMandatory(final, nil); len(p) > 0 {
 			e.violate(7, "pending-mandatory", "constructor returned nil but %v of the last advertisement are mandatory, negotiable, eligible and un-negotiated (state %s)", p, stateStr(final))
@@ -1099,6 +1114,7 @@ func Prop() *core.Prop {
 		Assumptions: []string{
 			"a feature is identified by its namespace (the library's caches are keyed that way); configured features have distinct namespaces and non-empty local names",
 			"Parse consumes its element and Negotiate on the receiving side consumes the selection element, as the built-in features do; callbacks do no other wire I/O",
+			"eligibility (rules 1, 4, 7, 8) is judged against Session.State() OR-ed with the monitor's own model of the state (initial state plus every mask returned by a successful Negotiate callback); State() lacking a model bit is itself reported (rule 5, stale-state)",
 			"rule 2 accepts any features list of the current stream as the advertisement; rule 7 counts a mandatory feature as pending only if it was eligible when advertised and still is at constructor return",
 			"a bind-like feature reports Ready only when no other mandatory feature of the latest list is pending, so an early Ready is never the feature's own doing",
 		},
@@ -1115,6 +1131,7 @@ func Prop() *core.Prop {
 			"negotiate_calls", "list_calls", "parse_calls",
 			"r1_checks", "r2_forced_starttls_exempt", "r3_readvertised_after_negotiation",
 			"r4_checks", "r4_lists_with_voluntary_and_mandatory", "r5_state_samples",
+			"r5_model_comparisons", "r5_masks_adding_gate_bits",
 			"r6_restarts_with_fresh_header", "r7_established", "r8_lists_checked",
 			"r8_refusable_selection_unadvertised", "r8_refusable_selection_repeated",
 			"r8_refusable_selection_informational", "r8_refusable_selection_unknown-namespace",
